@@ -114,25 +114,29 @@ Lemma mstep_cases s o :
   exists r go, inb s r = true /\ fst (mstep s o) = upd_sys s r go /\
     let g := nth_mgr (mgrs s) r in
     (exists order, go = gossip_round g order) \/ (exists m, go = suspect_node g m) \/
+    (exists p, go = (add_peer g p, [])) \/
     (exists k m, nth_error (mpool s) k = Some (r, m) /\ go = handle g m).
 Proof.
-  destruct o as [r order|r m|k]; cbn [Mgr.mstep].
+  destruct o as [r order|r m|r p|k]; cbn [Mgr.mstep].
   - destruct (inb s r) eqn:I; [|left; reflexivity]. right. exists r, (gossip_round (nth_mgr (mgrs s) r) order).
     cbn [fst]. repeat split; auto. left. eexists; reflexivity.
   - destruct (inb s r) eqn:I; [|left; reflexivity]. right. exists r, (suspect_node (nth_mgr (mgrs s) r) m).
     cbn [fst]. repeat split; auto. right; left. eexists; reflexivity.
+  - destruct (inb s r) eqn:I; [|left; reflexivity]. right. exists r, (add_peer (nth_mgr (mgrs s) r) p, []).
+    cbn [fst]. repeat split; auto. right; right; left. eexists; reflexivity.
   - destruct (nth_error (mpool s) (N.to_nat k)) as [[dst m]|] eqn:E; [|left; reflexivity].
     destruct (inb s dst) eqn:I; [|left; reflexivity]. right. exists dst, (handle (nth_mgr (mgrs s) dst) m).
-    cbn [fst]. repeat split; auto. right; right. exists (N.to_nat k), m. split; [exact E|reflexivity].
+    cbn [fst]. repeat split; auto. right; right; right. exists (N.to_nat k), m. split; [exact E|reflexivity].
 Qed.
 
 Lemma mstep_mono s o r : mono (lww (nth_mgr (mgrs s) r)) (lww (nth_mgr (mgrs (fst (mstep s o))) r)).
 Proof.
   destruct (mstep_cases s o) as [->|[r0 [go [I [-> H]]]]]; [apply mono_refl|].
   rewrite nth_mgr_upd by exact I. destruct (N.eqb_spec r r0) as [->|]; [|apply mono_refl].
-  cbn zeta in H. destruct H as [[order ->]|[[m ->]|[k [m [_ ->]]]]].
+  cbn zeta in H. destruct H as [[order ->]|[[m ->]|[[p ->]|[k [m [_ ->]]]]]].
   - apply round_mono.
   - apply suspect_node_mono.
+  - cbn [fst]. apply add_peer_mono.
   - apply handle_mono.
 Qed.
 
@@ -313,6 +317,13 @@ Proof.
   apply in_map_iff in I. destruct I as [y [[= <- <-] _]]. exact Logic.I.
 Qed.
 
+Lemma add_peer_ok a g p : a (me g) = myinc g -> EB a (lww g) -> local_ok a g (add_peer g p, []).
+Proof.
+  intros A E. apply local_same; auto; [|apply out_nil].
+  unfold Mgr.add_peer. cbn [lww]. destruct (get (lww g) p); [exact E|].
+  apply EB_merge; [exact E|]. intros m u [[= <- <-]|[]]. cbn. apply N.le_0_l.
+Qed.
+
 (* ---- the cluster ---- *)
 Definition A (s : msys) (m : N) : N := myinc (nth_mgr (mgrs s) m).
 
@@ -352,9 +363,10 @@ Proof.
   apply upd_inv; auto. cbn zeta in C.
   assert (Aeq : A s (me (nth_mgr (mgrs s) r)) = myinc (nth_mgr (mgrs s) r)).
   { rewrite (mi_me _ H). reflexivity. }
-  destruct C as [[order ->]|[[m ->]|[k [m [E ->]]]]].
+  destruct C as [[order ->]|[[m ->]|[[p ->]|[k [m [E ->]]]]]].
   - apply round_ok; [exact Aeq|apply (mi_regs _ H)].
   - apply suspect_node_ok; [exact Aeq|apply (mi_regs _ H)].
+  - apply add_peer_ok; [exact Aeq|apply (mi_regs _ H)].
   - apply handle_ok; [exact Aeq|apply (mi_regs _ H)|]. eapply (mi_pool _ H). eapply nth_error_In. exact E.
 Qed.
 
@@ -383,17 +395,17 @@ Qed.
 Lemma N_seq_from_length : forall c st, length (N_seq_from st c) = c.
 Proof. induction c as [|c IH]; intros st; cbn; auto. Qed.
 
-Lemma minit_inv R : MInv (minit sup R).
+Lemma minit_inv R pf : MInv (minitP sup R pf).
 Proof.
-  assert (Nth : forall r, let g := nth_mgr (mgrs (minit sup R)) r in
+  assert (Nth : forall r, let g := nth_mgr (mgrs (minitP sup R pf)) r in
                           me g = r /\ myinc g = 0 /\ EB (fun _ => 0) (lww g)).
-  { intros r. unfold nth_mgr, minit. cbn [mgrs].
+  { intros r. unfold nth_mgr, minitP. cbn [mgrs].
     destruct (Nat.lt_ge_cases (N.to_nat r) (N.to_nat R)) as [L|L].
-    - set (f := fun i => fold_left add_peer (filter (fun p => negb (N.eqb p i)) (N_seq R)) (mgr_init i)).
+    - set (f := fun i => fold_left add_peer (pf i) (mgr_init i)).
       rewrite (nth_indep _ _ (f 0)) by (rewrite map_length; unfold N_seq; rewrite N_seq_from_length; exact L).
       rewrite (map_nth f). unfold N_seq. rewrite N_seq_from_nth by exact L.
       replace (0 + N.of_nat (N.to_nat r)) with r by lia. unfold f.
-      destruct (add_peers_init (filter (fun p => negb (N.eqb p r)) (N_seq_from 0 (N.to_nat R))) (mgr_init r) (fun _ => 0)) as [E [M I]].
+      destruct (add_peers_init (pf r) (mgr_init r) (fun _ => 0)) as [E [M I]].
       + unfold mgr_init, update_local. cbn [lww]. apply EB_set; [intros m u []|cbn; lia].
       + cbn zeta in *. split; [exact M|]. split; [exact I|exact E].
     - rewrite nth_overflow by (rewrite map_length; unfold N_seq; rewrite N_seq_from_length; exact L).
@@ -408,19 +420,19 @@ Qed.
    (rounds, local suspicions, deliveries in any order with duplication and loss), no manager records a
    member -- as Failed or otherwise -- above the incarnation counter of that member's own manager,
    i.e. above the highest incarnation that member announced in an Alive message. *)
-Theorem mgr_failed_inc_bounded : forall R ops r m e,
-  get (lww (nth_mgr (mgrs (mrun (minit sup R) ops)) r)) m = Some e -> health e = 2 ->
-  inc e <= myinc (nth_mgr (mgrs (mrun (minit sup R) ops)) m).
+Theorem mgr_failed_inc_bounded : forall R pf ops r m e,
+  get (lww (nth_mgr (mgrs (mrun (minitP sup R pf) ops)) r)) m = Some e -> health e = 2 ->
+  inc e <= myinc (nth_mgr (mgrs (mrun (minitP sup R pf) ops)) m).
 Proof.
-  intros R ops r m e G _. pose proof (mrun_inv ops _ (minit_inv R)) as H.
+  intros R pf ops r m e G _. pose proof (mrun_inv ops _ (minit_inv R pf)) as H.
   exact (EB_RB _ _ (mi_regs _ H r) m e G).
 Qed.
 
 (* every Alive a manager has in flight was sent by its subject and carries at most that manager's counter *)
-Theorem mgr_alive_announced : forall R ops d n i,
-  In (d, GAliv n i) (mpool (mrun (minit sup R) ops)) -> i <= myinc (nth_mgr (mgrs (mrun (minit sup R) ops)) n).
+Theorem mgr_alive_announced : forall R pf ops d n i,
+  In (d, GAliv n i) (mpool (mrun (minitP sup R pf) ops)) -> i <= myinc (nth_mgr (mgrs (mrun (minitP sup R pf) ops)) n).
 Proof.
-  intros R ops d n i I. pose proof (mrun_inv ops _ (minit_inv R)) as H. exact (mi_pool _ H _ _ I).
+  intros R pf ops d n i I. pose proof (mrun_inv ops _ (minit_inv R pf)) as H. exact (mi_pool _ H _ _ I).
 Qed.
 
 End MP.
